@@ -723,7 +723,8 @@ def rule_literal_fallback(ctx, rep):
 
         def label(interp, fi, args, kwargs):
             rec['label'] = interp.oracle.decide(None, 'label-lookup-found')
-            return ((AbsInt('ls'), AbsInt('le'), AbsStr(label='label')), (AbsStr(label='d'), AbsStr(label='t'))) if rec['label'] else None
+            from ..tokens import FoundSomething
+            return FoundSomething() if rec['label'] else None       # whatever layout the scanner's result has
 
         def getl(interp, fi, args, kwargs):
             rec['get'] = interp.oracle.decide(None, 'text-lookup-found')
